@@ -54,6 +54,13 @@ def gen_script(rnd, tier, state):
         L.append("sro|%d|%s" % (i, " ".join(map(str, SRO[i]))))
     S = Spec()
     pool = []
+    pending = False
+    last = (0.0, 1, "", REQ[0])
+
+    def kband(k):
+        return 0 if k < 0.25 else 1 if k < 0.42 else 2 if k < 0.55 else 3 if k < 0.65 else 4 if k < 0.75 else 5 if k < 0.83 else 6 if k < 0.93 else 7
+    # the kind of call a subscriber makes in reaction (same family, mostly the opposite direction); values inside the bands
+    FLIP = {0: [0.3, 0.3, 0.1], 1: [0.1, 0.1, 0.3], 2: [0.6, 0.6, 0.5], 3: [0.5, 0.5, 0.6], 4: [0.8, 0.8, 0.7], 5: [0.7, 0.7, 0.8], 6: [0.95, 0.95, 0.9], 7: [0.9, 0.9, 0.95]}
 
     def val(mix):
         if pool and rnd.random() < 0.45:
@@ -108,7 +115,9 @@ def gen_script(rnd, tier, state):
         k = rnd.random()
         # a rebuilt counter differs from an empty one only where a component is registered more than once for an interface
         several = len({(pp, w[1]) for (pp, nn), (w, _) in S.util.items()}) < len(S.util)
-        if rnd.random() < p_reload * (3 if several else 1):
+        if pending:
+            pass            # (the subscriber's call comes next: nothing in between)
+        elif rnd.random() < p_reload * (3 if several else 1):
             L.append("reload")
             L += observations()
             if rnd.random() < 0.6:
@@ -121,6 +130,14 @@ def gen_script(rnd, tier, state):
         n = rnd.choice(NAMES)
         req = rnd.choice(REQ)
         rs = " ".join(map(str, req))
+        nested, pending = pending, False
+        if not nested and rnd.random() < 0.07:
+            # the call about to be made has an event subscriber that reacts to its Registered / Unregistered event by making the
+            # NEXT call of the history, biased to the same slot (re-register what was just removed, remove what was just added)
+            pending = True
+            L.append("nest|%s" % ("R" if (k < 0.25 or 0.42 <= k < 0.55 or 0.65 <= k < 0.75 or 0.83 <= k < 0.93) else "U"))
+        if nested and rnd.random() < 0.7:
+            k, p, n, req, rs = rnd.choice(FLIP[kband(last[0])]), last[1], last[2], last[3], " ".join(map(str, last[3]))
         if k < 0.25:
             n = rnd.choice(UNAMES) if rnd.random() < 0.3 else n
             v = val(mix)
@@ -139,7 +156,7 @@ def gen_script(rnd, tier, state):
                 v = (state["vid"], old[0][1], old[0][2])                   # equal but distinct component, same info
                 info = old[1]
             # `@name`: the name is not passed; the component carries it as __component_name__ (named utilities / adapters)
-            if rnd.random() < 0.06:
+            if rnd.random() < 0.06 and not pending and not nested:
                 # a name that is not a string: refused, and NOTHING may have been written (the observations that follow see to it)
                 L.append("regU|%s|%d|%s|%s" % (sv(v), p, rnd.choice(["#b", "#n", "#t"]), info))
                 L += observations()
@@ -169,7 +186,7 @@ def gen_script(rnd, tier, state):
                 del S.util[(p, n)]
         elif k < 0.55:
             v = val(mix)
-            if rnd.random() < 0.06:
+            if rnd.random() < 0.06 and not pending and not nested:
                 L.append("regA|%s|%s|%d|%s" % (sv(v), rs, p, rnd.choice(["#b", "#n", "#t"])))
                 L += observations()
                 continue
@@ -212,6 +229,10 @@ def gen_script(rnd, tier, state):
                 v = None if rnd.random() < 0.4 else val(mix)
             L.append("unregH|%s|%s" % (sv(v), mark(rs, v)))
             S.hand = [s for s in S.hand if not (s[0] == req and (v is None or eq(v, s[1])))]
+        last = (k, p, n, req)
+        if not pending:
+            L += observations()
+    if pending:
         L += observations()
     return L
 
@@ -271,6 +292,12 @@ def oracle(chk, lines, outs, known=None):
             continue
         if dead:
             continue
+        if op == "nest":
+            chk.count("calls_with_a_reacting_event_subscriber")
+            continue
+        if out.endswith(" NESTED"):
+            chk.count("calls_made_from_inside_an_event_delivery")
+            out = out[:-len(" NESTED")]
         if "API-DISAGREE" in out:
             bad.append((i, "%s: a query method of the Components object does not answer as the lookup on its registries does: %s" % (line, out.split("API-DISAGREE")[1].strip())))
             continue
